@@ -190,7 +190,15 @@ def run_choice(case: dict) -> dict:
            "gx": "", "tag": "none", "r1k": "none", "r1": [], "r1x": "", "r2k": "none", "r2": [], "r2x": "",
            "consumed1": 0, "consumed2": 0, "maxreq": 0, "calls": 0}
     try:
-        s = get_input_stream(env, safe_fallback=case["safe_fallback"], max_content_length=mx)
+        if case.get("api") == "request":
+            # the same decision reached through Request.stream (safe_fallback is always on there)
+            from werkzeug.wrappers import Request
+
+            req = Request(env)
+            req.max_content_length = mx
+            s = req.stream
+        else:
+            s = get_input_stream(env, safe_fallback=case["safe_fallback"], max_content_length=mx)
     except Exception as e:  # noqa: BLE001
         rec["gx"] = type(e).__name__
         return rec
